@@ -29,6 +29,12 @@
 #else
 #define GD_BZIP_BUFFER_SIZE 1000000
 #endif
+#ifdef GD_VERIF_HOOKS
+# ifdef GD_VERIF_BZIP_BUFFER_SIZE
+#  undef GD_BZIP_BUFFER_SIZE
+#  define GD_BZIP_BUFFER_SIZE GD_VERIF_BZIP_BUFFER_SIZE
+# endif
+#endif
 
 struct gd_bzdata {
   BZFILE* bzfile;
